@@ -1,26 +1,613 @@
 /-
 C24 — Stored procedures follow structured-program semantics.
+
+Model: `Gms/Model/ProcLang.lean` (compiler `compile` = `ConvertStmt`/`resolveGoToIndexes`, op machine
+`step`/`run` = `Call`/`execOp`, Spec `exec` = big-step structured semantics, `callImpl`/`callSpec`).
+Helper lemmas and the simulation proof are in `Gms/Lemmas/ProcLang.lean`; the property theorems are
+at the end, in `namespace Gms.C24`.
+
+Full statement (false on the unchanged tree, see the `finding_…` theorems):
+  ∀ p args s fuel, callSpec Sem.mysql fuel p args s = some r → ∃ n, callImpl n p args s = r
+What is proved instead:
+  * `compile_correct` / `compile_correct_error` — for every statement without LEAVE/ITERATE whose
+    IF/CASE final branches do not end in a BEGIN…END block, every store and every fuel: if the
+    structured semantics (`Sem.gms` reading) finishes, the op machine run on the compiled code
+    finishes with exactly the same store (resp. the same error, trace and parameters);
+  * `sem_agree_partial` — the `Sem.gms` and `Sem.mysql` readings coincide on statements without
+    REPEAT and without DEFAULT-less DECLARE, so under those guards the theorem is about MySQL's
+    definition (`structured_correct_partial`);
+  * `call_correct_partial` — the same at CALL level (parameter set-up, write-back of INOUT user variables)
+    for procedures without OUT parameters in a fresh session;
+  * `goto_resolved` — for every well-labelled statement (LEAVE/ITERATE included) no placeholder
+    index (-1 / -2) survives compilation;
+  * `scan_neutral` — the scope scans of OpCode_Goto are stack-neutral over the code of jump-free statements.
 -/
-import Gms.Model.ProcLang
+import Gms.Lemmas.ProcLang
 import Gms.Generated.C24
 
+namespace Gms.ProcLang
+
+/-! ## The two readings of the semantics agree away from REPEAT and DEFAULT-less DECLARE -/
+
+theorem exec_sem_agree (sem1 sem2 : Sem) : ∀ n s σ, hasBareDeclare s = false → hasRepeat s = false →
+    exec sem1 n s σ = exec sem2 n s σ := by
+  intro n
+  induction n with
+  | zero => intros; rfl
+  | succ n ih =>
+    intro s σ hd hr
+    cases s with
+    | seq a b =>
+      simp only [hasBareDeclare, hasRepeat, Bool.or_eq_false_iff] at hd hr
+      simp only [exec, ih a σ hd.1 hr.1, fun σ1 => ih b σ1 hd.2 hr.2]
+    | block l b =>
+      simp only [hasBareDeclare, hasRepeat] at hd hr
+      simp only [exec, ih b _ hd hr]
+    | declare x d =>
+      cases d with
+      | none => simp [hasBareDeclare] at hd
+      | some v => simp only [exec, declValue]
+    | ite c t e =>
+      simp only [hasBareDeclare, hasRepeat, Bool.or_eq_false_iff] at hd hr
+      simp only [exec, ih t σ hd.1 hr.1, ih e σ hd.2 hr.2]
+    | «while» l c b =>
+      have hd' : hasBareDeclare b = false := by simpa [hasBareDeclare] using hd
+      have hr' : hasRepeat b = false := by simpa [hasRepeat] using hr
+      simp only [exec, ih b σ hd' hr', fun σ1 => ih (.while l c b) σ1 hd hr]
+    | «repeat» l b c => simp [hasRepeat] at hr
+    | loop l b =>
+      have hd' : hasBareDeclare b = false := by simpa [hasBareDeclare] using hd
+      have hr' : hasRepeat b = false := by simpa [hasRepeat] using hr
+      simp only [exec, ih b σ hd' hr', fun σ1 => ih (.loop l b) σ1 hd hr]
+    | _ => simp only [exec]
+
+/-! ## No placeholder index survives compilation of a well-labelled statement -/
+
+def envOf (label : Option Name) (env : List Name) : List Name :=
+  match label with
+  | some l => l :: env
+  | none => env
+
+/-- Every LEAVE / ITERATE names a label of an enclosing statement. -/
+def wellLabelled (env : List Name) : Stmt → Bool
+  | .seq a b => wellLabelled env a && wellLabelled env b
+  | .block l b => wellLabelled (envOf l env) b
+  | .ite _ t e => wellLabelled env t && wellLabelled env e
+  | .while l _ b => wellLabelled (envOf l env) b
+  | .repeat l b _ => wellLabelled (envOf l env) b
+  | .loop l b => wellLabelled (envOf l env) b
+  | .leave l => env.contains l
+  | .iterate l => env.contains l
+  | _ => true
+
+/-- A goto is resolved, or it is a placeholder whose label is still to be closed by `env`. -/
+def negOk (env : List Name) : Op → Prop
+  | .goto t idx => 0 ≤ idx ∨ ((idx = -1 ∨ idx = -2) ∧ ∃ l, t = some l ∧ l ∈ env)
+  | _ => True
+
+theorem getLabel_cases (l : Name) (lb : Labels) : getLabel l lb = -1 ∨ 0 ≤ getLabel l lb := by
+  induction lb with
+  | nil => left; rfl
+  | cons p r ih =>
+    obtain ⟨k, i⟩ := p
+    simp only [getLabel]
+    split
+    · right; omega
+    · exact ih
+
+theorem resolve_negOk (label : Option Name) (env : List Name) (a b : Int) (ha : 0 ≤ a) (hb : 0 ≤ b)
+    (ops : List Op) (h : ∀ op ∈ ops, negOk (envOf label env) op) :
+    ∀ op ∈ resolve label a b ops, negOk env op := by
+  cases label with
+  | none => exact h
+  | some l =>
+    intro op hop
+    simp only [resolve, List.mem_map] at hop
+    obtain ⟨op0, hop0, rfl⟩ := hop
+    have h0 := h op0 hop0
+    cases op0 with
+    | goto t idx =>
+      cases t with
+      | none =>
+        simp only [resolveOp, negOk] at h0 ⊢
+        rcases h0 with h0 | ⟨_, l', hl', _⟩
+        · exact Or.inl h0
+        · cases hl'
+      | some t =>
+        simp only [negOk, envOf] at h0
+        simp only [resolveOp]
+        by_cases htl : t = l
+        · simp only [htl, if_true]
+          by_cases h1 : idx = -1
+          · simp only [h1, if_true, negOk]; exact Or.inl ha
+          · by_cases h2 : idx = -2
+            · simp only [h2, if_true, negOk]
+              have : ¬ ((-2 : Int) = -1) := by omega
+              simp only [this, if_false]; exact Or.inl hb
+            · simp only [h1, h2, if_false, negOk]
+              rcases h0 with h0 | ⟨h0, _⟩
+              · exact Or.inl h0
+              · rcases h0 with h0 | h0
+                · exact absurd h0 h1
+                · exact absurd h0 h2
+        · simp only [htl, if_false, negOk]
+          rcases h0 with h0 | ⟨h0, l', hl', hmem⟩
+          · exact Or.inl h0
+          · right
+            refine ⟨h0, l', hl', ?_⟩
+            simp only [Option.some.injEq] at hl'
+            subst hl'
+            simp only [List.mem_cons] at hmem
+            rcases hmem with h | h
+            · exact absurd h htl
+            · exact h
+    | _ => trivial
+
+theorem compile_negOk (s : Stmt) : ∀ env base lb, wellLabelled env s = true →
+    ∀ op ∈ (compile base lb s).1, negOk env op := by
+  induction s with
+  | seq a b iha ihb =>
+    intro env base lb hw op hop
+    simp only [wellLabelled, Bool.and_eq_true] at hw
+    simp only [compile, List.mem_append] at hop
+    rcases hop with h | h
+    · exact iha _ _ _ hw.1 op h
+    · exact ihb _ _ _ hw.2 op h
+  | block l b ih =>
+    intro env base lb hw op hop
+    simp only [wellLabelled] at hw
+    simp only [compile, List.mem_cons] at hop
+    rcases hop with rfl | h
+    · trivial
+    · refine resolve_negOk l env _ _ (by omega) (by omega) _ ?_ op h
+      intro op' hop'
+      simp only [List.mem_append, List.mem_cons, List.not_mem_nil, or_false] at hop'
+      rcases hop' with h' | rfl
+      · exact ih _ _ _ hw op' h'
+      · trivial
+  | ite c t e iht ihe =>
+    intro env base lb hw op hop
+    simp only [wellLabelled, Bool.and_eq_true] at hw
+    simp only [compile, List.mem_cons, List.mem_append, List.not_mem_nil, or_false] at hop
+    rcases hop with rfl | (h | rfl) | h
+    · trivial
+    · exact iht _ _ _ hw.1 op h
+    · simp only [negOk]; left; omega
+    · exact ihe _ _ _ hw.2 op h
+  | «while» l c b ih =>
+    intro env base lb hw op hop
+    simp only [wellLabelled] at hw
+    simp only [compile] at hop
+    refine resolve_negOk l env _ _ (by omega) (by omega) _ ?_ op hop
+    intro op' hop'
+    simp only [List.mem_append, List.mem_cons, List.not_mem_nil, or_false] at hop'
+    rcases hop' with rfl | h' | rfl
+    · trivial
+    · exact ih _ _ _ hw op' h'
+    · simp only [negOk]; left; omega
+  | «repeat» l b c ih =>
+    intro env base lb hw op hop
+    simp only [wellLabelled] at hw
+    simp only [compile] at hop
+    refine resolve_negOk l env _ _ (by omega) (by omega) _ ?_ op hop
+    intro op' hop'
+    simp only [List.mem_append, List.mem_cons, List.not_mem_nil, or_false] at hop'
+    rcases hop' with h' | rfl | h' | rfl
+    · exact ih _ _ _ hw op' h'
+    · trivial
+    · exact ih _ _ _ hw op' h'
+    · simp only [negOk]; left; omega
+  | loop l b ih =>
+    intro env base lb hw op hop
+    simp only [wellLabelled] at hw
+    simp only [compile] at hop
+    refine resolve_negOk l env _ _ (by omega) (by omega) _ ?_ op hop
+    intro op' hop'
+    simp only [List.mem_append, List.mem_cons, List.not_mem_nil, or_false] at hop'
+    rcases hop' with h' | rfl
+    · exact ih _ _ _ hw op' h'
+    · simp only [negOk]; left; omega
+  | leave l =>
+    intro env base lb hw op hop
+    simp only [wellLabelled, List.contains_iff_mem] at hw
+    simp only [compile, List.mem_cons, List.not_mem_nil, or_false] at hop
+    subst hop
+    exact Or.inr ⟨Or.inr rfl, l, rfl, hw⟩
+  | iterate l =>
+    intro env base lb hw op hop
+    simp only [wellLabelled, List.contains_iff_mem] at hw
+    simp only [compile, List.mem_cons, List.not_mem_nil, or_false] at hop
+    subst hop
+    rcases getLabel_cases l lb with h | h
+    · exact Or.inr ⟨Or.inl h, l, rfl, hw⟩
+    · exact Or.inl h
+  | skip => intro env base lb hw op hop; simp [compile] at hop
+  | _ =>
+    intro env base lb hw op hop
+    simp only [compile, List.mem_cons, List.not_mem_nil, or_false] at hop
+    subst hop
+    trivial
+
+/-! ## Parameter set-up and write-back without OUT parameters -/
+
+theorem lookupSess_append_none {x : Name} : ∀ {acc : List (Name × Spp)} {y : Name} {p : Spp},
+    lookupSess x acc = none → x ≠ y → lookupSess x (acc ++ [(y, p)]) = none := by
+  intro acc
+  induction acc with
+  | nil => intro y p _ hxy; simp [lookupSess, Ne.symm hxy]
+  | cons a acc ih =>
+    intro y p h hxy
+    obtain ⟨k, q⟩ := a
+    simp only [lookupSess, List.cons_append] at h ⊢
+    split at h
+    · cases h
+    · rename_i hk; simp only [hk, if_false]; exact ih h hxy
+
+theorem assignSpp_append_new {x : Name} {v : Val} : ∀ {acc : List (Name × Spp)} {p : Spp},
+    lookupSess x acc = none → assignSpp x v (acc ++ [(x, p)]) = acc ++ [(x, { p with val := v })] := by
+  intro acc
+  induction acc with
+  | nil => intro p _; simp [assignSpp]
+  | cons a acc ih =>
+    intro p h
+    obtain ⟨k, q⟩ := a
+    simp only [lookupSess] at h
+    split at h
+    · cases h
+    · rename_i hk
+      simp only [List.cons_append, assignSpp, hk, if_false, ih h]
+
+def paramNames (ps : List Param) : List Name := ps.map (·.name)
+
+/-- With no OUT parameter, distinct names and a session that holds none of them, the engine's
+parameter set-up (NewStoredProcParam + value assignment) builds exactly the Spec's parameter list
+behind what the session already held. -/
+theorem initParams_agree (uv : List (Name × Val)) : ∀ (ps : List Param) (as : List Arg) (acc : List (Name × Spp)),
+    (∀ q ∈ ps, q.mode ≠ .out) → (paramNames ps).Nodup → (∀ q ∈ ps, lookupSess q.name acc = none) →
+    initParamsImpl uv ps as acc = acc ++ initParamsSpec uv ps as := by
+  intro ps
+  induction ps with
+  | nil => intro as acc _ _ _; cases as <;> simp [initParamsImpl, initParamsSpec]
+  | cons p ps ih =>
+    intro as acc hm hnd hfree
+    cases as with
+    | nil => simp [initParamsImpl, initParamsSpec]
+    | cons a as =>
+      have hp : lookupSess p.name acc = none := hfree p (by simp)
+      have hmode : p.mode ≠ .out := hm p (by simp)
+      simp only [paramNames, List.map_cons, List.nodup_cons] at hnd
+      simp only [initParamsImpl, initParamsSpec, newSpp, hp, assignSpp_append_new hp, hmode, if_false]
+      rw [ih as _ (fun q hq => hm q (by simp [hq])) hnd.2]
+      · simp
+      · intro q hq
+        apply lookupSess_append_none (hfree q (by simp [hq]))
+        intro heq
+        apply hnd.1
+        simp only [List.mem_map]
+        exact ⟨q, hq, heq⟩
+
+theorem writeBack_agree (ss : List (Name × Spp)) : ∀ (ps : List Param) (as : List Arg) (uv : List (Name × Val)),
+    (∀ q ∈ ps, q.mode ≠ .out) → writeBackImpl ss ps as uv = writeBackSpec ss ps as uv := by
+  intro ps
+  induction ps with
+  | nil => intro as uv _; cases as <;> simp [writeBackImpl, writeBackSpec]
+  | cons p ps ih =>
+    intro as uv hm
+    cases as with
+    | nil => simp [writeBackImpl, writeBackSpec]
+    | cons a as =>
+      have hmode : p.mode ≠ .out := hm p (by simp)
+      simp only [writeBackImpl, writeBackSpec]
+      have ihx := fun uv' => ih as uv' (fun q hq => hm q (by simp [hq]))
+      cases hpm : p.mode with
+      | in_ => simp only []; exact ihx _
+      | out => exact absurd hpm hmode
+      | inout =>
+        cases a with
+        | lit v => simp only []; exact ihx _
+        | uvar u =>
+          simp only []
+          cases lookupSess p.name ss with
+          | none => simp only []; exact ihx _
+          | some spp =>
+            have : (decide (Mode.inout = Mode.out) && !spp.hasBeenSet) = false := by simp
+            simp only [this, Bool.false_eq_true, if_false]
+            exact ihx _
+
+end Gms.ProcLang
+
+/-! ## Property theorems -/
 namespace Gms.C24
 open Gms.ProcLang
 
-/-- The shapes the model transliterates are the ones the extractor read from the source now. -/
+/-- The tables the model transliterates are the ones the extractor read from the source on this
+run: op-code enumeration, per-statement op shapes of `ConvertStmt`, the LEAVE/ITERATE placeholders
+and their resolution, the direction test / scan bounds / push-pop table of `OpCode_Goto`, the
+`OpCode_If` jump, the error numbers, the `Call` loop and DECLARE's zero value. -/
 theorem facts_match :
     Gms.Generated.C24.opCodes = ["Select", "Declare", "Signal", "Open", "Fetch", "Close", "Set", "Call", "If",
       "Goto", "Execute", "Exception", "Return", "ScopeBegin", "ScopeEnd"]
-    ∧ Gms.Generated.C24.leaveIndex = "-2" := by
+    ∧ Gms.Generated.C24.stmtOps = [
+      ("*ast.BeginEndBlock", ["ScopeBegin", "ScopeEnd"]), ("*ast.Select", ["Select"]), ("*ast.Declare", ["Declare"]),
+      ("*ast.OpenCursor", ["Open"]), ("*ast.FetchCursor", ["Fetch"]), ("*ast.CloseCursor", ["Close"]),
+      ("*ast.Signal", ["Signal"]), ("*ast.Set", ["Execute", "Set"]), ("*ast.Call", ["Call"]),
+      ("*ast.IfStatement", ["If", "Goto"]), ("*ast.CaseStatement", ["If", "Goto", "Exception"]),
+      ("*ast.While", ["If", "Goto"]), ("*ast.Repeat", ["If", "Goto"]), ("*ast.Loop", ["Goto"]),
+      ("*ast.Iterate", ["Goto"]), ("*ast.Leave", ["Goto"]), ("default", ["Execute"])]
+    ∧ Gms.Generated.C24.leaveIndex = "-2"
+    ∧ Gms.Generated.C24.iterateIndexExpr = "stack.GetLabel(s.Label)"
+    ∧ Gms.Generated.C24.getLabelMissing = "-1"
+    ∧ Gms.Generated.C24.resolveTable = [("-1", "loopStart"), ("-2", "loopEnd")]
+    ∧ Gms.Generated.C24.resolveChecksTarget = true
+    ∧ Gms.Generated.C24.gotoDirectionTest = "counter<=operation.Index"
+    ∧ Gms.Generated.C24.gotoFwd = "counter<operation.Index-1;counter++;OpCode_ScopeBegin→PushScope;OpCode_ScopeEnd→PopScope"
+    ∧ Gms.Generated.C24.gotoBwd = "counter>operation.Index-1;counter--;OpCode_ScopeBegin→PopScope;OpCode_ScopeEnd→PushScope"
+    ∧ Gms.Generated.C24.ifJump = "cond==nil||cond.(int8)==0⇒counter=operation.Index-1"
+    ∧ Gms.Generated.C24.scopeOps = ["OpCode_ScopeBegin→stack.PushScope()", "OpCode_ScopeEnd→stack.PopScope(ctx)"]
+    ∧ Gms.Generated.C24.errnos = ["case:1339", "signal:\"01\":1642", "signal:\"02\":1643", "signal:default:1644"]
+    ∧ Gms.Generated.C24.callLoop = ["init:-1", "step:counter++", "break:counter>=len(statements)"]
+    ∧ Gms.Generated.C24.newVariableBody = "{is.NewVariableWithValue(name,typ,typ.Zero())}" := by
   decide
 
-def w1 : Proc := { params := [⟨0, .out⟩], body :=
-    (.block none (.seq (.declare 3 (some 1)) (.seq (.block (some 1) (.seq (.declare 3 (some 2)) (.leave 1))) (.set 0 (.var 3))))) }
-def s0 : Session := { uvars := [(0, none)], sess := [], log := [] }
+/-- Guards of the compiler-correctness theorem: no LEAVE/ITERATE, no IF/CASE whose final branch
+ends with a BEGIN…END block (region `else_block_scope_leak`), no LOOP with an empty body (not
+expressible in SQL). -/
+def Structured (s : Stmt) : Prop :=
+  jumpFree s = true ∧ hasElseBlock s = false ∧ loopsNonempty s = true
+
+instance (s : Stmt) : Decidable (Structured s) := by unfold Structured; infer_instance
+
+/-- **Compiler correctness, normal termination.** For every structured statement, every store with
+a non-empty scope stack and every fuel: if the structured semantics finishes normally with store
+`σ'`, the op machine started on `Parse`'s op list finishes with outcome `ok` and exactly `σ'`
+(for every sufficiently large step budget). -/
+theorem compile_correct (s : Stmt) (hs : Structured s) (σ σ' : Store) (hne : σ.stack ≠ []) (fuel : Nat)
+    (h : exec Sem.gms fuel s σ = some (.normal, σ')) :
+    ∃ n, ∀ k, n ≤ k → run k (compileProgram s) ⟨-1, σ⟩ = (.ok, σ') := by
+  obtain ⟨hj, he, hn⟩ := hs
+  have hsim := sim fuel s σ .normal σ' h hj he hn hne [] [] 0 rfl
+  simp only [List.nil_append, List.append_nil, SimGoal, Nat.zero_add] at hsim
+  have hcode : compileProgram s = cjf 0 s := compile_eq_cjf s 0 [] hj
+  rw [hcode]
+  have hend : step (cjf 0 s) ⟨((codeLen s : Nat) : Int) - 1, σ'⟩ = .done .ok σ' := by
+    have h1 : ((codeLen s : Nat) : Int) - 1 + 1 = (codeLen s : Int) := by omega
+    have h2 : ¬ ((codeLen s : Int) < 0) := by omega
+    have h3 : (cjf 0 s)[codeLen s]? = none := by
+      rw [List.getElem?_eq_none_iff, cjf_length]; exact Nat.le_refl _
+    simp [step, h1, h2, h3]
+  have hreach : Reaches (cjf 0 s) ⟨((0 : Nat) : Int) - 1, σ⟩ (.done .ok σ') :=
+    Reaches.trans hsim (Reaches.halt hend)
+  exact hreach.run
+
+/-- **Compiler correctness, errors.** If the structured semantics stops with error `e` (SIGNAL,
+CASE not found, unresolved name), the machine stops with the same error number, the same trace and
+the same parameter values. -/
+theorem compile_correct_error (s : Stmt) (hs : Structured s) (σ σ' : Store) (hne : σ.stack ≠ []) (fuel e : Nat)
+    (h : exec Sem.gms fuel s σ = some (.error e, σ')) :
+    ∃ n σm, σm.sess = σ'.sess ∧ σm.log = σ'.log ∧
+      ∀ k, n ≤ k → run k (compileProgram s) ⟨-1, σ⟩ = (.err e, σm) := by
+  obtain ⟨hj, he, hn⟩ := hs
+  have hsim := sim fuel s σ (.error e) σ' h hj he hn hne [] [] 0 rfl
+  simp only [List.nil_append, List.append_nil, SimGoal] at hsim
+  obtain ⟨σm, hr, hse, hlo⟩ := hsim
+  have hcode : compileProgram s = cjf 0 s := compile_eq_cjf s 0 [] hj
+  rw [hcode]
+  obtain ⟨n, hn'⟩ := hr.run
+  exact ⟨n, σm, hse, hlo, hn'⟩
+
+/-- A structured statement never escapes with a LEAVE/ITERATE signal (so the two theorems above
+cover every finishing run). -/
+theorem structured_no_escape (s : Stmt) (hs : Structured s) (σ σ' : Store) (hne : σ.stack ≠ []) (fuel : Nat) (l : Name) :
+    exec Sem.gms fuel s σ ≠ some (.leave l, σ') ∧ exec Sem.gms fuel s σ ≠ some (.iterate l, σ') := by
+  obtain ⟨hj, he, hn⟩ := hs
+  constructor
+  · intro h; exact sim fuel s σ (.leave l) σ' h hj he hn hne [] [] 0 rfl
+  · intro h; exact sim fuel s σ (.iterate l) σ' h hj he hn hne [] [] 0 rfl
+
+/-- `Sem.mysql` (DECLARE without DEFAULT is NULL, REPEAT runs until the condition is TRUE, ITERATE
+restarts a REPEAT body) and `Sem.gms` (what the op code implements) give the same result on every
+statement without REPEAT and without DEFAULT-less DECLARE. -/
+theorem sem_agree_partial (s : Stmt) (hd : hasBareDeclare s = false) (hr : hasRepeat s = false) (n : Nat) (σ : Store) :
+    exec Sem.mysql n s σ = exec Sem.gms n s σ :=
+  exec_sem_agree Sem.mysql Sem.gms n s σ hd hr
+
+/-- The property on the region-free structured fragment, against MySQL's definition. -/
+theorem structured_correct_partial (s : Stmt) (hs : Structured s) (hd : hasBareDeclare s = false)
+    (hr : hasRepeat s = false) (σ σ' : Store) (hne : σ.stack ≠ []) (fuel : Nat)
+    (h : exec Sem.mysql fuel s σ = some (.normal, σ')) :
+    ∃ n, ∀ k, n ≤ k → run k (compileProgram s) ⟨-1, σ⟩ = (.ok, σ') :=
+  compile_correct s hs σ σ' hne fuel (by rw [← sem_agree_partial s hd hr]; exact h)
+
+/-- **CALL level, region-free fragment.** For a procedure whose body is structured, has no REPEAT
+and no DEFAULT-less DECLARE, with IN/INOUT parameters of distinct names only, called in a fresh
+session: whatever the Spec (MySQL reading) yields — outcome, user variables, trace — the Impl model
+of the CALL (parameter set-up, `Parse`, the op machine, write-back) yields too. -/
+theorem call_correct_partial (p : Proc) (args : List Arg) (s : Session) (fuel : Nat)
+    (hs : Structured p.body) (hd : hasBareDeclare p.body = false) (hr : hasRepeat p.body = false)
+    (hm : ∀ q ∈ p.params, q.mode ≠ .out) (hnd : (paramNames p.params).Nodup) (hfresh : s.sess = [])
+    (o : Outcome) (s' : Session) (hspec : callSpec Sem.mysql fuel p args s = some (o, s')) :
+    ∃ n, ∀ k, n ≤ k → (callImpl k p args s).1 = o ∧ (callImpl k p args s).2.uvars = s'.uvars ∧
+      (callImpl k p args s).2.log = s'.log := by
+  have hinit : initParamsImpl s.uvars p.params args s.sess = initParamsSpec s.uvars p.params args := by
+    rw [hfresh, initParams_agree s.uvars p.params args [] hm hnd (fun _ _ => rfl)]
+    simp
+  have hne : ({ stack := [[]], sess := initParamsSpec s.uvars p.params args, log := s.log } : Store).stack ≠ [] := by
+    simp
+  unfold callSpec at hspec
+  simp only at hspec
+  split at hspec
+  · cases hspec
+  · rename_i σ hex
+    simp only [Option.some.injEq, Prod.mk.injEq] at hspec
+    obtain ⟨rfl, rfl⟩ := hspec
+    obtain ⟨n, hn⟩ := structured_correct_partial p.body hs hd hr _ σ hne fuel hex
+    refine ⟨n, fun k hk => ?_⟩
+    have hrun := hn k hk
+    simp [callImpl, hinit, hrun, writeBack_agree σ.sess p.params args s.uvars hm]
+  · rename_i e σ hex
+    simp only [Option.some.injEq, Prod.mk.injEq] at hspec
+    obtain ⟨rfl, rfl⟩ := hspec
+    rw [sem_agree_partial p.body hd hr] at hex
+    obtain ⟨n, σm, hse, hlo, hn⟩ := compile_correct_error p.body hs _ σ hne fuel e hex
+    refine ⟨n, fun k hk => ?_⟩
+    have hrun := hn k hk
+    simp [callImpl, hinit, hrun, hlo]
+  · rename_i sg σ hnn hne' hex
+    exfalso
+    rw [sem_agree_partial p.body hd hr] at hex
+    cases sg with
+    | normal => exact hnn rfl
+    | error e => exact hne' e rfl
+    | leave l => exact (structured_no_escape p.body hs _ σ hne fuel l).1 hex
+    | iterate l => exact (structured_no_escape p.body hs _ σ hne fuel l).2 hex
+
+/-- For every well-labelled statement (LEAVE and ITERATE included) every `Goto` of the compiled
+program carries a resolved, non-negative index. -/
+theorem goto_resolved (s : Stmt) (hw : wellLabelled [] s = true) :
+    ∀ t idx, Op.goto t idx ∈ compileProgram s → 0 ≤ idx := by
+  intro t idx hmem
+  have := compile_negOk s [] 0 [] hw _ hmem
+  simp only [negOk] at this
+  rcases this with h | ⟨_, l, _, hl⟩
+  · exact h
+  · simp at hl
+
+/-- The scope scans of `OpCode_Goto` are stack-neutral over the code of any jump-free statement, in
+both directions (this is what makes loop back-edges and IF exits keep the scope stack). -/
+theorem scan_neutral (s : Stmt) (hj : jumpFree s = true) (base : Nat) (lb : Labels) (st : List Scope) :
+    scanList true (compile base lb s).1 st = some st ∧ scanList false (compile base lb s).1.reverse st = some st := by
+  rw [compile_eq_cjf s base lb hj]
+  exact scan_cjf s base st
+
+/-! ### Non-vacuity -/
+
+/-- A structured program with a nested block, a WHILE with a shadowing DECLARE inside, an IF with
+ELSE and a CASE-not-found arm: the guards hold and the semantics finishes. -/
+def demo : Stmt :=
+  .block none (.seq (.declare 3 (some 0)) (.seq (.declare 4 (some 10))
+    (.seq (.while (some 0) (.lt (.var 3) (.lit 3))
+        (.seq (.block none (.seq (.declare 4 (some 1)) (.set 3 (.add (.var 3) (.var 4)))))
+          (.ite (.eq (.var 3) (.lit 2)) (.emit (.var 4)) (.emit (.var 3)))))
+      (.set 0 (.add (.var 3) (.var 4))))))
+
+def demoStore : Store := { stack := [[]], sess := [(0, ⟨none, false⟩)], log := [] }
+
+example : Structured demo ∧ hasBareDeclare demo = false ∧ hasRepeat demo = false ∧
+    (exec Sem.mysql 30 demo demoStore).map (fun r => (r.1, r.2.log, lookupSess 0 r.2.sess)) =
+      some (.normal, [some 3, some 10, some 1], some ⟨some 13, true⟩) := by decide
+
+/-- The hypotheses of `call_correct_partial` are satisfiable: `demo` as the body of `p(INOUT v0)`,
+called with `@u0 = 4` in a fresh session, finishes with `@u0 = 13` under the Spec. -/
+example : let p : Proc := { params := [⟨0, .inout⟩], body := demo }
+    let s : Session := { uvars := [(0, some 4)], sess := [], log := [] }
+    Structured p.body ∧ (∀ q ∈ p.params, q.mode ≠ .out) ∧ (paramNames p.params).Nodup ∧
+    (callSpec Sem.mysql 30 p [.uvar 0] s).map (fun r => (r.1, getU 0 r.2.uvars)) = some (.ok, some 13) := by
+  decide
+
+example : wellLabelled [] (.loop (some 1) (.seq (.ite (.var 0) (.leave 1) .skip) (.iterate 1))) = true := by decide
+
+/-! ### Findings on the unchanged tree (each replayed against the real engine by the harness corpus) -/
+
+def sess0 (u0 : Val) : Session := { uvars := [(0, u0)], sess := [], log := [] }
+def outR : List Param := [⟨0, .out⟩]
+
+/-- F-C24-a. `b1: BEGIN DECLARE x DEFAULT 2; LEAVE b1; END; SET r = x` reads the inner `x`. -/
+def wLeaveBlock : Proc := { params := outR, body :=
+  (.block none (.seq (.declare 3 (some 1)) (.seq (.block (some 1) (.seq (.declare 3 (some 2)) (.leave 1))) (.set 0 (.var 3))))) }
 
 theorem finding_leave_block_scope_leak :
-    (callImpl 40 w1 [.uvar 0] s0).1 = .ok ∧ getU 0 (callImpl 40 w1 [.uvar 0] s0).2.uvars = some 2 ∧
-    (callSpec Sem.mysql 40 w1 [.uvar 0] s0).map (fun r => getU 0 r.2.uvars) = some (some 1) := by
+    hasLeaveBlock [] wLeaveBlock.body = true ∧
+    (callImpl 40 wLeaveBlock [.uvar 0] (sess0 none)).1 = .ok ∧
+    getU 0 (callImpl 40 wLeaveBlock [.uvar 0] (sess0 none)).2.uvars = some 2 ∧
+    (callSpec Sem.mysql 40 wLeaveBlock [.uvar 0] (sess0 none)).map (fun r => (r.1, getU 0 r.2.uvars)) = some (.ok, some 1) := by
+  decide
+
+/-- IF whose ELSE branch ends with a block: taking the THEN branch leaks a scope. -/
+def wElseBlock : Proc := { params := outR, body :=
+  (.block none (.seq (.declare 3 (some 1)) (.seq
+    (.block (some 1) (.seq (.declare 3 (some 2)) (.ite (.lit 1) (.set 0 (.lit 0)) (.block none (.set 0 (.lit 5))))))
+    (.set 0 (.var 3))))) }
+
+theorem finding_else_block_scope_leak :
+    hasElseBlock wElseBlock.body = true ∧ jumpFree wElseBlock.body = true ∧
+    getU 0 (callImpl 40 wElseBlock [.uvar 0] (sess0 none)).2.uvars = some 2 ∧
+    (callSpec Sem.mysql 40 wElseBlock [.uvar 0] (sess0 none)).map (fun r => (r.1, getU 0 r.2.uvars)) = some (.ok, some 1) := by
+  decide
+
+/-- The compiler-correctness theorem is false without the `hasElseBlock` guard. -/
+theorem compile_correct_needs_guard :
+    ∃ s σ σ', jumpFree s = true ∧ σ.stack ≠ [] ∧ exec Sem.gms 40 s σ = some (.normal, σ') ∧
+      (run 100 (compileProgram s) ⟨-1, σ⟩).2 ≠ σ' :=
+  ⟨wElseBlock.body, { stack := [[]], sess := [(0, ⟨none, false⟩)], log := [] }, _, by decide, by decide, rfl, by decide⟩
+
+/-- ITERATE in a WHILE labelled like an earlier LOOP jumps back into the old loop. -/
+def wStale : Proc := { params := outR, body :=
+  (.block none (.seq (.declare 3 (some 0)) (.seq
+    (.loop (some 0) (.seq (.set 3 (.add (.var 3) (.lit 1))) (.seq (.ite (.lt (.lit 3) (.var 3)) (.leave 0) .skip) (.emit (.var 3)))))
+    (.seq (.while (some 0) (.lt (.var 3) (.lit 8))
+      (.seq (.set 3 (.add (.var 3) (.lit 1))) (.seq (.ite (.eq (.var 3) (.lit 6)) (.iterate 0) .skip) (.emit (.mul (.var 3) (.lit 10))))))
+      (.set 0 (.var 3)))))) }
+
+theorem finding_stale_label_iterate :
+    staleIterate wStale.body = true ∧
+    (callImpl 200 wStale [.uvar 0] (sess0 none)).2.log.reverse = [some 1, some 2, some 3, some 50, some 80] ∧
+    (callSpec Sem.mysql 60 wStale [.uvar 0] (sess0 none)).map (fun r => r.2.log.reverse)
+      = some [some 1, some 2, some 3, some 50, some 70, some 80] := by
+  decide
+
+/-- OUT parameter not reset: the body sees the caller's value. -/
+def wOutParam : Proc := { params := outR, body := (.block none (.emit (.var 0))) }
+
+theorem finding_out_param_not_reset :
+    (callImpl 20 wOutParam [.uvar 0] (sess0 (some 5))).2.log = [some 5] ∧
+    (callSpec Sem.mysql 20 wOutParam [.uvar 0] (sess0 (some 5))).map (fun r => r.2.log) = some [none] := by
+  decide
+
+/-- … and a stale `HasBeenSet` from an earlier CALL in the session makes an unassigned OUT
+parameter write the caller's old value back instead of NULL. -/
+def wOutStale : Proc := { params := [⟨0, .out⟩, ⟨1, .in_⟩], body :=
+  (.block none (.ite (.eq (.var 1) (.lit 1)) (.set 0 (.lit 7)) .skip)) }
+
+theorem finding_out_param_stale_has_been_set :
+    let s1 := (callImpl 20 wOutStale [.uvar 0, .lit (some 1)] (sess0 (some 5))).2
+    let t1 := ((callSpec Sem.mysql 20 wOutStale [.uvar 0, .lit (some 1)] (sess0 (some 5))).map (·.2)).getD default
+    getU 0 s1.uvars = some 7 ∧ getU 0 t1.uvars = some 7 ∧
+    getU 0 (callImpl 20 wOutStale [.uvar 0, .lit (some 0)] s1).2.uvars = some 7 ∧
+    (callSpec Sem.mysql 20 wOutStale [.uvar 0, .lit (some 0)] t1).map (fun r => getU 0 r.2.uvars) = some none := by
+  decide
+
+/-- ITERATE of a REPEAT label evaluates UNTIL instead of restarting the body. -/
+def wIterRepeat : Stmt :=
+  .block none (.seq (.declare 3 (some 0)) (.seq
+    (.repeat (some 0) (.seq (.set 3 (.add (.var 3) (.lit 1))) (.seq (.ite (.eq (.var 3) (.lit 3)) (.iterate 0) .skip) (.emit (.var 3))))
+      (.le (.lit 3) (.var 3)))
+    (.set 0 (.var 3))))
+
+theorem finding_iterate_repeat_checks_until :
+    hasIterateRepeat [] wIterRepeat = true ∧
+    (callImpl 200 ⟨outR, wIterRepeat⟩ [.uvar 0] (sess0 none)).2.log.reverse = [some 1, some 2] ∧
+    (callSpec Sem.mysql 60 ⟨outR, wIterRepeat⟩ [.uvar 0] (sess0 none)).map (fun r => r.2.log.reverse) = some [some 1, some 2, some 4] ∧
+    (callSpec Sem.gms 60 ⟨outR, wIterRepeat⟩ [.uvar 0] (sess0 none)).map (fun r => r.2.log.reverse) = some [some 1, some 2] := by
+  decide
+
+/-- REPEAT … UNTIL NULL leaves the loop. -/
+def wUntilNull : Stmt :=
+  .block none (.seq (.declare 3 (some 0))
+    (.repeat (some 0) (.seq (.set 3 (.add (.var 3) (.lit 1))) (.emit (.var 3))) (.or (.le (.lit 3) (.var 3)) .null)))
+
+theorem finding_repeat_until_null_exits :
+    hasRepeat wUntilNull = true ∧ jumpFree wUntilNull = true ∧
+    (callImpl 200 ⟨[], wUntilNull⟩ [] (sess0 none)).2.log.reverse = [some 1] ∧
+    (callSpec Sem.mysql 60 ⟨[], wUntilNull⟩ [] (sess0 none)).map (fun r => r.2.log.reverse) = some [some 1, some 2, some 3] := by
+  decide
+
+/-- DECLARE without DEFAULT is 0, not NULL. -/
+def wBareDeclare : Stmt := .block none (.seq (.declare 3 none) (.emit (.var 3)))
+
+theorem finding_declare_without_default_zero :
+    hasBareDeclare wBareDeclare = true ∧
+    (callImpl 20 ⟨[], wBareDeclare⟩ [] (sess0 none)).2.log = [some 0] ∧
+    (callSpec Sem.mysql 20 ⟨[], wBareDeclare⟩ [] (sess0 none)).map (fun r => r.2.log) = some [none] := by
   decide
 
 end Gms.C24
